@@ -1652,11 +1652,27 @@ class Authenticated(BaseClientHandler):
             )
             return None
 
-        await self.send_pending_notifications()
+        # The message numbers of a COPY/MOVE mean what they meant when the
+        # client sent the command: it has not seen the EXPUNGEs we still
+        # hold for it. Like FETCH/STORE/SEARCH we refuse until it has.
+        #
+        if self.pending_expunges():
+            if cmd.uid_command:
+                await self.send_pending_notifications()
+            else:
+                raise No("There are pending EXPUNGEs.")
+        else:
+            await self.send_pending_notifications()
 
         # Wait until the mailbox gives us the go-ahead to run the command.
         #
         async with cmd.ready_and_okay(self.mbox):
+            # While this command waited for its turn another client's
+            # EXPUNGE may have run: its EXPUNGEs are now pending for us and
+            # our sequence numbers are stale.
+            #
+            if not cmd.uid_command and self.pending_expunges():
+                raise No("There are pending EXPUNGEs.")
             try:
                 dest_mbox = await self.server.get_mailbox(cmd.mailbox_name)
                 src_uids, dst_uids = await self.mbox.copy(
@@ -1715,7 +1731,17 @@ class Authenticated(BaseClientHandler):
         if self.examine:
             raise No("Mailbox is read-only")
 
-        await self.send_pending_notifications()
+        # The message numbers of a COPY/MOVE mean what they meant when the
+        # client sent the command: it has not seen the EXPUNGEs we still
+        # hold for it. Like FETCH/STORE/SEARCH we refuse until it has.
+        #
+        if self.pending_expunges():
+            if cmd.uid_command:
+                await self.send_pending_notifications()
+            else:
+                raise No("There are pending EXPUNGEs.")
+        else:
+            await self.send_pending_notifications()
 
         # Phase 1: Copy messages to the destination mailbox.
         #
@@ -1726,6 +1752,12 @@ class Authenticated(BaseClientHandler):
         # of mailboxes in opposite directions.
         #
         async with cmd.ready_and_okay(self.mbox):
+            # While this command waited for its turn another client's
+            # EXPUNGE may have run: its EXPUNGEs are now pending for us and
+            # our sequence numbers are stale.
+            #
+            if not cmd.uid_command and self.pending_expunges():
+                raise No("There are pending EXPUNGEs.")
             try:
                 dest_mbox = await self.server.get_mailbox(cmd.mailbox_name)
                 src_uids, dst_uids = await self.mbox.copy(
